@@ -48,7 +48,7 @@ func main() {
 		if p == nil {
 			fatalf("unknown property %s", id)
 		}
-		for i, j := range p.Jobs(tier) {
+		for i, j := range jobsFor(p, tier) {
 			fmt.Printf("%d\t%s\tshards=%d\n", i, j.Name, j.Shards)
 		}
 	default:
@@ -107,7 +107,7 @@ func cmdWorker(args []string) {
 		pprof.StartCPUProfile(f)
 		defer pprof.StopCPUProfile()
 	}
-	jobs := p.Jobs(tier)
+	jobs := jobsFor(p, tier)
 	in := bufio.NewReaderSize(os.Stdin, 1<<16)
 	out := bufio.NewWriter(os.Stdout)
 	for {
@@ -202,7 +202,7 @@ func findJob(id, tier, name string) *Job {
 		return nil
 	}
 	for _, t := range []string{tier, "quick", "thorough"} {
-		jobs := p.Jobs(t)
+		jobs := jobsFor(p, t)
 		for i := range jobs {
 			if jobs[i].Name == name {
 				return &jobs[i]
